@@ -60,7 +60,8 @@ ASSUMPTIONS = ["selectors are defined on every readable record (main bucket); th
                "for a truncated *compressed* source the intact prefix is whatever the real reader yields from it "
                "(measured by reading the source alone); for uncompressed streams and JSON lines it is computed from "
                "the cut position independently"]
-EXPLANATION = "seeded product of source placements x options x outputs; not exhaustive"
+EXPLANATION = ("placements of good/missing/truncated/garbage sources are enumerated completely up to length 3 (quick) / 4 "
+               "(thorough); the product with options and outputs is seeded, not exhaustive")
 
 # ------------------------------------------------------------------ pools
 
@@ -260,10 +261,35 @@ def _gen_out(r):
     return out
 
 
+def _placements(rng, tier):
+    """every placement of good / missing / truncated / garbage sources in lists of length 1..3 (thorough: 1..4)"""
+    import itertools
+    r = rng.fork("placements")
+    out = []
+    for L in range(1, {"quick": 3, "thorough": 4, "search": 3}[tier] + 1):
+        for combo in itertools.product(["good", "missing", "truncated", "garbage"], repeat=L):
+            srcs = []
+            for j, kind in enumerate(combo):
+                s = {"type": kind, "format": r.choice(FORMATS), "records": []}
+                if kind in ("good", "truncated"):
+                    s["records"] = [_gen_record(r, r.choice(DESCS)) for _ in range(2 if kind == "good" else 4)]
+                if kind == "truncated":
+                    s["cut"] = r.randint(300, 900)
+                if kind == "garbage":
+                    s["garbage"] = r.bytes(r.randint(0, 40)).hex()
+                srcs.append(s)
+            o = {"skip": r.choice([0, 0, 1]), "count": r.choice([None, None, 3]), "selector": r.choice([None, "r.k % 2 == 0"]),
+                 "no_compile": r.chance(50), "fields": None, "exclude": None, "source": None, "classification": None,
+                 "multits": False, "list": False}
+            out.append({"kind": "run", "bucket": "main", "sources": srcs, "opts": o,
+                        "out": {"kind": "file", "what": "records", "split": None, "suffix": 2, "also_mode": None}})
+    return out
+
+
 def gen_cases(rng, tier):
-    n = {"quick": 450, "thorough": 12000, "search": 2500}[tier]
+    n = {"quick": 1200, "thorough": 60000, "search": 2500}[tier]
     r = rng.fork("run")
-    cases = []
+    cases = _placements(rng, tier)
     for i in range(n):
         bucket = "raising" if i % 9 == 8 else "main"
         ns = r.choice([1, 1, 2, 2, 3, 3, 4])
@@ -543,14 +569,13 @@ def _write_source(s, path, built_iter):
         for r in recs:
             w.write(r)
         data = bio.getvalue()
-        ends, kinds, pos, seen = [], [], 0, 0
-        nrec = len(recs)
+        ends, kinds, pos = [], [], 0
         frames = []
         while pos < len(data):
             n = struct.unpack(">I", data[pos:pos + 4])[0]
             pos += 4 + n
             frames.append(pos)
-        # the last len(recs) non-descriptor frames are records; classify by content: descriptor ext sub-type 2
+        # classify the frames by content: header, descriptor (ext sub-type 2), record
         p0 = 0
         for end in frames:
             blob = data[p0 + 4:end]
